@@ -731,7 +731,9 @@ class MessageManager(ClientLike):
         """Send TIMING_MESSAGE"""
         data = cd.MDF_TIMING_MESSAGE()
         for mt, count in self.message_counts.items():
-            data.timing[mt] = count
+            # message types outside of the timing table can not be reported
+            if 0 <= mt < cd.MAX_MESSAGE_TYPES:
+                data.timing[mt] = count
         self.message_counts.clear()
 
         for mod in self.modules.values():
